@@ -56,6 +56,8 @@ class Models:
         npmodel2.register(self)
         rngmodel.register(self)
         specforms.register(self)
+        from . import linalg_rules
+        linalg_rules.register(self)
 
     # ------------------------------------------------------------ special forms
     def sf_old(self, e, st):
@@ -71,8 +73,12 @@ class Models:
         a = self.ex.truth(self.ex.ev(e.args[0], st), st)
         if a is False:
             return True
+        from .engine import export_facts
+        n0 = len(st.pc)
         loc = st.fork(); loc.assume(a)
         b = self.ex.truth(self.ex.ev(e.args[1], loc), loc)
+        export_facts(loc, st, n0, [a])
+        st.heap.update({k: v for k, v in loc.heap.items() if k not in st.heap})
         st.side += loc.side
         return IMPLIES(a, b)
 
